@@ -107,6 +107,9 @@ def run(chk):
         "Not decided: the two-sided discarded-weight error bound (a theorem about singular values).")
     chk.assumptions = ["prefix truncation keeps the largest singular values iff the spectrum is globally sorted in descending order",
                        "select_basis sorts candidates by singular value (sorted(..., reverse=True)) before choosing"]
+    chk.rule("threshold-count", "threshold criterion = count of normalised singular values above the threshold (abstract run)", 1)
+    from .mini_specs import threshold_count
+    threshold_count(chk, src, "threshold-count")
     chk.rule("sorted-before-prefix", "values of a full (blocked, unsorted) svd_qn never flow into _update_ms / truncate_tensors / a prefix slice", 4)
     chk.rule("svd-sort", "economic svd_qn applies one descending argsort to u, v, s and both label lists", 5)
     chk.rule("co-truncate", "u, s, v and both label lists are cut by one bound / selected by one index", 4)
